@@ -256,14 +256,34 @@ def check_synthesis(ctx, cirq, n):
         psi = np.array([complex(rng.gauss(0, 1), rng.gauss(0, 1)) for _ in range(4)])
         if rng.random() < 0.3:
             psi = np.kron(gen.rand_unitary(rng, 2)[:, 0], gen.rand_unitary(rng, 2)[:, 0])  # product state
+        elif rng.random() < 0.4:
+            # nearly a product state: the entangling gate may only be dropped when the error this causes is negligible
+            psi = np.kron(gen.rand_unitary(rng, 2)[:, 0], gen.rand_unitary(rng, 2)[:, 0]) + 10 ** rng.uniform(-9, -1) * psi
         psi /= np.linalg.norm(psi)
         for name, f in (('cz', cirq.prepare_two_qubit_state_using_cz), ('sqrt_iswap', cirq.prepare_two_qubit_state_using_sqrt_iswap), ('iswap', cirq.prepare_two_qubit_state_using_iswap)):
             ops = list(cirq.flatten_to_ops(f(q0, q1, psi)))
             m = lean_product(ctx, cirq, ops, [q0, q1])
             ctx.count('check', 'state-prep:' + name)
-            if abs(abs(np.vdot(psi, m[:, 0])) - 1) > 1e-6 or count_2q(ops) > 1:
+            ov = np.vdot(m[:, 0], psi)
+            if abs(abs(ov) - 1) > 1e-6 or np.max(np.abs(m[:, 0] * ov / abs(ov) - psi)) > 1e-6 or count_2q(ops) > 1:
                 ctx.report_witness(f'state-prep:{name}', f'prepare_two_qubit_state_using_{name}: the circuit does not prepare the state from |00> (or uses more than one entangling gate)',
                                    {'lines': [{'state': repr(np.round(psi, 9).tolist())}], 'impl_out': [[repr(o) for o in ops]], 'spec_out': ['|<psi|U|00>| = 1'], 'theorem_or_correspondence': 'operation product via applyOps'})
+    # controlled rotations by small angles and close to a Pauli, systematically: nothing larger than the tolerance may be dropped
+    for t in (3e-5, 1e-5) if ctx.tier == 'quick' else (1e-3, 1e-4, 3e-5, 1e-5, 3e-6, 1e-7):
+        for gname, g in (('rx', cirq.rx(t)), ('ry', cirq.ry(t)), ('rz', cirq.rz(t)), ('ry(pi-t)', cirq.ry(np.pi - t)), ('rx(pi+t)', cirq.rx(np.pi + t)), ('phxz', cirq.PhasedXZGate(x_exponent=t, z_exponent=0.3, axis_phase_exponent=0.2)),
+                         ('Z**t', cirq.ZPowGate(exponent=t)), ('Z**(1-t)', cirq.ZPowGate(exponent=1 - t)), ('X**t shifted', cirq.XPowGate(exponent=t, global_shift=0.25))):
+            for nc in (1, 2):
+                sq = cirq.unitary(g)
+                qs = cirq.LineQubit.range(nc + 1)
+                ops = list(cirq.flatten_to_ops(cirq.decompose_multi_controlled_rotation(sq, list(qs[:nc]), qs[nc])))
+                got = lean_product(ctx, cirq, ops, qs)
+                want = np.eye(2 ** (nc + 1), dtype=complex)
+                want[-2:, -2:] = sq
+                ctx.count('check', 'multi_controlled_rotation:small-angle')
+                ctx.case(['mcr-small', gname, t, nc], True)
+                if not np.allclose(got, want, atol=1e-6):
+                    ctx.report_witness('synth:multi-controlled:small-angle', 'decompose_multi_controlled_rotation: the product is not the controlled unitary (a small rotation was dropped)',
+                                       {'lines': [{'gate': gname, 't': t, 'controls': nc}], 'impl_out': [len(ops), float(np.max(np.abs(got - want)))], 'spec_out': ['controlled-U within 1e-6'], 'theorem_or_correspondence': 'operation product via applyOps'})
     # three qubits, n qubits, controlled rotations, Cliffords
     for i in range(max(4, n // 8)):
         u3 = rng.choice([gen.rand_unitary(rng, 8), np.eye(8, dtype=complex), cirq.unitary(cirq.CCX), cirq.unitary(cirq.CCZ), cirq.unitary(cirq.CSWAP), np.kron(gen.rand_unitary(rng, 4), gen.rand_unitary(rng, 2)),
@@ -288,6 +308,11 @@ def check_synthesis(ctx, cirq, n):
         nc = rng.choice([1, 2, 3])
         sq = gen.rand_unitary(rng, 2)
         sq = sq / np.sqrt(np.linalg.det(sq)) if rng.random() < 0.5 else sq
+        if rng.random() < 0.4:
+            # rotations by small angles and rotations close to a Pauli: nothing larger than the tolerance may be dropped
+            t = 10 ** rng.uniform(-9, -2)
+            sq = cirq.unitary(rng.choice([cirq.rx(t), cirq.ry(t), cirq.rz(t), cirq.ry(np.pi - t), cirq.rx(np.pi + t), cirq.PhasedXZGate(x_exponent=t, z_exponent=rng.choice([0, 0.3]), axis_phase_exponent=0.2),
+                                          cirq.ZPowGate(exponent=t), cirq.ZPowGate(exponent=1 - t), cirq.XPowGate(exponent=t, global_shift=0.25)]))
         qs = cirq.LineQubit.range(nc + 1)
         try:
             ops = list(cirq.flatten_to_ops(cirq.decompose_multi_controlled_rotation(sq, list(qs[:nc]), qs[nc])))
@@ -295,7 +320,7 @@ def check_synthesis(ctx, cirq, n):
             want = np.eye(2 ** (nc + 1), dtype=complex)
             want[-2:, -2:] = sq
             ctx.count('check', 'multi_controlled_rotation')
-            if not np.allclose(got, want, atol=1e-5):
+            if not np.allclose(got, want, atol=1e-6):
                 ctx.report_witness('synth:multi-controlled', 'decompose_multi_controlled_rotation: the product is not the controlled unitary', {'lines': [{'matrix': repr(np.round(sq, 6).tolist()), 'controls': nc}], 'impl_out': [len(ops)],
                                                                                                                                   'spec_out': ['controlled-U'], 'theorem_or_correspondence': 'operation product via applyOps'})
         except ValueError as e:
